@@ -224,3 +224,58 @@ Proof.
     * rewrite app_length, !skipn_length. unfold m, l1 in *. lia.
     * intros H. exfalso. rewrite app_length, !skipn_length in H. unfold m, l1 in *. lia.
 Qed.
+
+Lemma tw_run_inv : forall chunks w s e, tw_inv w s e ->
+  tw_inv (fst (tw_run w chunks)) (s ++ concat chunks) (e ++ concat (snd (tw_run w chunks))).
+Proof.
+  induction chunks as [|c cs IH]; intros w s e H; cbn [tw_run concat fst snd].
+  - rewrite !app_nil_r. exact H.
+  - pose proof (tw_write_inv w s e c H) as H1.
+    destruct (tw_write w c) as [w1 o1] eqn:E1. cbn [fst snd] in H1.
+    specialize (IH w1 _ _ H1).
+    destruct (tw_run w1 cs) as [w2 o2] eqn:E2. cbn [fst snd] in *.
+    rewrite concat_app, !app_assoc. rewrite <- !app_assoc in IH. rewrite <- !app_assoc. exact IH.
+Qed.
+
+(* every chunking of a stream of at least four bytes: all but the last four bytes reach the
+   underlying writer, in order, and exactly the last four are retained *)
+Theorem trunc_writer_spec chunks :
+  let s := concat chunks in
+  let r := tw_run tw0 chunks in
+  (4 <= length s)%nat ->
+  concat (snd r) = firstn (length s - 4) s /\ tp (fst r) = skipn (length s - 4) s /\ tn (fst r) = 4.
+Proof.
+  intros s r Hlen.
+  pose proof (tw_run_inv chunks tw0 [] [] tw_inv0) as H. cbn [app] in H. fold s in H. fold r in H.
+  destruct H as (rr & pad & Hs & Htp & Hl & Htn & Hr4 & He).
+  assert (Hrr : length rr = 4%nat).
+  { destruct (Nat.lt_ge_cases (length rr) 4) as [Hlt|Hge]; [|lia].
+    specialize (He Hlt). rewrite He in Hs. cbn in Hs. rewrite Hs in Hlen. lia. }
+  assert (Hpad : pad = []) by (rewrite Htp, app_length in Hl; destruct pad; [reflexivity|cbn in Hl; lia]).
+  subst pad. rewrite app_nil_r in Htp.
+  assert (Hel : (length s - 4)%nat = length (concat (snd r))) by (rewrite Hs, app_length; lia).
+  rewrite Hel. rewrite Hs at 1 2.
+  rewrite firstn_app, Nat.sub_diag, firstn_all. cbn [firstn]. rewrite app_nil_r.
+  rewrite skipn_app, Nat.sub_diag, skipn_all. cbn [skipn app].
+  repeat split; [exact Htp | lia].
+Qed.
+
+(* short streams: nothing is emitted, the bytes sit in the retention buffer *)
+Theorem trunc_writer_short chunks :
+  let s := concat chunks in
+  let r := tw_run tw0 chunks in
+  (length s < 4)%nat ->
+  concat (snd r) = [] /\ tn (fst r) = N.of_nat (length s) /\ firstn (length s) (tp (fst r)) = s.
+Proof.
+  intros s r Hlen.
+  pose proof (tw_run_inv chunks tw0 [] [] tw_inv0) as H. cbn [app] in H. fold s in H. fold r in H.
+  destruct H as (rr & pad & Hs & Htp & Hl & Htn & Hr4 & He).
+  assert (Hrr : (length rr < 4)%nat) by (rewrite Hs, app_length in Hlen; lia).
+  specialize (He Hrr). rewrite He in *. cbn [app] in Hs. subst rr.
+  repeat split; [exact Htn|]. rewrite Htp, firstn_app, Nat.sub_diag, firstn_all. cbn. apply app_nil_r.
+Qed.
+
+Example trunc_example :
+  tw_run tw0 [[1;2]; [3;4;5;6;7;8]; []; [9]]
+  = (mkT [6;7;8;9] 4, [[1;2;3;4]; []; []; []; [5]; []]).
+Proof. vm_compute. reflexivity. Qed.
